@@ -237,7 +237,7 @@ SPEC = {
             "plus FOCUSED FAMILIES (harness/focused.go): minimal queries built systematically, one scoping shape each — a binding read only from the inline property map / WHERE / "
             "pattern predicate / endpoint of a later MATCH; renamings inside one WITH (fresh, identity, shadowing, swaps, rotations); variable-length step + fixed hops with every subset of "
             "the suffix nodes already bound; aggregate-only projections with LIMIT; a NAMED PATH bound by a MATCH whose own WHERE holds a pattern predicate (incl. the patterns the "
-            "optimiser reverses), the path / nodes(p) / relationships(p) / length(p) projected afterwards, also through WITH. FINDING KEY = C03:<symptom>:<sql site>:<query shape>: symptom from the binder verdict, sql site from the "
+            "optimiser reverses), the path / nodes(p) / relationships(p) / length(p) projected afterwards, also through WITH; ORDER BY on a RETURN / WITH alias declared before and AFTER un-aliased non-variable items (property, id(), aggregate) — the sort item must be an output column or a FROM column wherever the alias stands in the list (family order-alias); `x IN nodes(p)` / `r IN relationships(p)` on a bound path (fixed hop, chain, expansion) in a WHERE (staged into a lateral sub-select) and as a projection item (not staged), directly and through WITH (family path-membership). FINDING KEY = C03:<symptom>:<sql site>:<query shape>: symptom from the binder verdict, sql site from the "
             "position of the dangling reference in the SQL text, query shape = the first ENABLING feature set (lib/cyshape.py, table SHAPES in lib/props/c03.py) the Cypher text satisfies for "
             "that symptom:site; a query that shows the symptom at that site without any registered enabling shape is keyed `unrecognised-query-shape`, which is never registered: VIOLATION. The registered pattern-predicate shapes are about a predicate reading a binding of an EARLIER clause: a "
             "single-MATCH query (no WITH / UNWIND / earlier clause) that binds a path variable and holds a pattern predicate over its own bindings (feature "
